@@ -239,6 +239,10 @@ func (p *pool) runShard(k int, shardPath string, idxs []int) {
 		case strings.Contains(st, "out of memory") || strings.Contains(st, "cannot allocate memory") || strings.Contains(st, "runtime: cannot map pages"):
 			res.viol(allocKey(c), "worker (RLIMIT_AS %d GiB) was killed by an allocation it could not satisfy (%v) | case: %s | %s", workerASLimit>>30, werr, c.describe(), lastLines(fatalPart(st), 8))
 			res.class("%s:%s:worker-out-of-memory", c.Family, c.Kind)
+		case strings.Contains(st, "\npanic: ") || strings.HasPrefix(st, "panic: "):
+			// a panic on a goroutine the library (or a dependency) started: no caller can recover it
+			res.viol("crash/panic-outside-recover:"+c.Family+":"+c.Kind+":"+c.Class, "the process was killed by a panic on a goroutine started below the entry point (not recoverable by the caller) | case: %s | %s", c.describe(), lastLines(fatalPart(st), 8))
+			res.class("%s:%s:process-killed-by-panic-on-inner-goroutine", c.Family, c.Kind)
 		default:
 			res.viol("worker-died:"+c.Family+":"+c.Kind+":"+c.Class, "worker died (%v) inside case: %s | %s", werr, c.describe(), lastLines(fatalPart(st), 8))
 			res.class("%s:%s:worker-died", c.Family, c.Kind)
@@ -253,6 +257,9 @@ func (p *pool) runShard(k int, shardPath string, idxs []int) {
 
 func fatalPart(s string) string {
 	if i := strings.Index(s, "fatal error:"); i >= 0 {
+		return s[i:]
+	}
+	if i := strings.Index(s, "panic: "); i >= 0 {
 		return s[i:]
 	}
 	if i := strings.Index(s, "runtime:"); i >= 0 {
